@@ -109,6 +109,41 @@ func runsLine(o *suiteOut, maxOps int, checkStart bool, parts []string) string {
 	return res
 }
 
+// runsAllLine: consecutive Execute calls on one interpreter, every call made whatever the earlier ones returned;
+// emits the operation counter after each call and the final state; returns the counters
+func runsAllLine(o *suiteOut, maxOps int, checkStart bool, parts []string) []int {
+	var hs []string
+	for _, p := range parts {
+		hs = append(hs, hx([]byte(p)))
+	}
+	cs := "0"
+	if checkStart {
+		cs = "1"
+	}
+	line := fmt.Sprintf("runsall %d %s %s", maxOps, cs, strings.Join(hs, ","))
+	intp := postscript.NewInterpreter()
+	c := newCanon(intp)
+	intp.MaxOps = maxOps
+	intp.CheckStart = checkStart
+	class := "ok"
+	var counts []int
+	var cstr []string
+	for _, p := range parts {
+		class = func() (cl string) {
+			defer func() {
+				if r := recover(); r != nil {
+					cl = "panic:" + strings.ReplaceAll(fmt.Sprint(r), "\n", " ")
+				}
+			}()
+			return errClass(intp.Execute(strings.NewReader(p)))
+		}()
+		counts = append(counts, intp.NumOps)
+		cstr = append(cstr, fmt.Sprint(intp.NumOps))
+	}
+	o.emit(line, "counts="+strings.Join(cstr, ",")+" "+c.render(class), true)
+	return counts
+}
+
 func replayRun(o *suiteOut, line string) {
 	f := strings.Split(line, " ")
 	if len(f) != 4 {
@@ -225,6 +260,7 @@ func suiteOps(o *suiteOut, r *rng, tier string, n int) {
 		replayRun(o, l)
 		o.count("corpus cases")
 	}
+	plrmOpTable(o)
 	for _, a := range aliasPrograms {
 		p.run(100000, false, a)
 		o.count("aliasing / sharing programs")
